@@ -66,6 +66,37 @@ theorem one_line_per_response (c : Cfg) (e : Env) (existing : List (FName × Byt
       ((life c e existing ops lb).log.filter (fun en => wantsCdx en.record)).length := by
   rw [(cdx_range_is_record c e existing ops lb).2 hc]; simp
 
+/-- **write_record_appends_pair** — `write_record` puts the record into the archive and its CDX
+line into the index in the same step: there is no state of the recorder in which a response
+record is in the archive while its line is still pending. -/
+theorem write_record_appends_pair (c : Cfg) (e : Env) (s : St) (r : Record) :
+    (writeRecord c e s r).log = s.log ++ [newEntry c e s r] ∧
+    (writeRecord c e s r).cdxLines = s.cdxLines ++
+      (if c.cdx && wantsCdx (newEntry c e s r).record then [lineOf c e (newEntry c e s r)] else []) := by
+  refine ⟨writeRecord_log c e s r, ?_⟩
+  have hl : (writeRecord c e s r).cdxLines =
+      if c.cdx && wantsCdx (newEntry c e s r).record then s.cdxLines ++ [lineOf c e (newEntry c e s r)] else s.cdxLines := by
+    simp [writeRecord, newEntry, lineOf, fsSize_eq, fsGet_fsSet_same, content]
+  rw [hl]; split <;> simp
+
+/-- **cdx_complete_at_every_step** — not only after `close()`: after ANY number `k` of session
+events of any history (i.e. at every point at which the process may die or the files may be
+read), the index holds exactly one line per response record written so far, in order, and every
+logged range addresses exactly its record in the files as they stand at that moment. -/
+theorem cdx_complete_at_every_step (c : Cfg) (e : Env) (existing : List (FName × Bytes)) (ops : List Op) (k : Nat)
+    (hc : c.cdx = true) :
+    let s := run c e (initSt c e existing) (ops.take k)
+    s.cdxLines = (s.log.filter (fun en => wantsCdx en.record)).map
+        (fun en => cdxLine c e en.file en.record en.size en.offset) ∧
+    (∀ en ∈ s.log, en.offset + en.size ≤ (content s en.file).length ∧
+      ((content s en.file).drop en.offset).take en.size =
+        (if c.compress then e.member en.record.idx (serialize en.record) else serialize en.record)) := by
+  have h := run_inv c e existing (ops.take k) _ (initSt_inv c e existing)
+  refine ⟨?_, fun en hen => h.slice en hen⟩
+  have := h.cdx
+  unfold CdxOk at this
+  rw [this, if_pos hc]; rfl
+
 /-- **cdx_file_started_over** — a life WITHOUT `appending` on a prefix that was used before:
 whatever `PREFIX.cdx` held (`old`), afterwards it is the header line followed by exactly the
 lines of the response records this life logged — no line of the earlier life survives the
